@@ -7,7 +7,7 @@ from __future__ import annotations
 
 import ast
 
-from ..astq import arg, ext_names, handler_classes, inside, is_name, loc, lock_withs, names_in, stmt_of, in_body
+from ..astq import comes_before, arg, ext_names, handler_classes, inside, is_name, loc, lock_withs, names_in, stmt_of, in_body
 from ..cfg import CFG, any_call_may_raise
 from ..model import AnalysisError, head, norm
 from . import roles
@@ -170,7 +170,7 @@ def check(ctx):
     calls = ex.own_calls()
     sets = [c for c in calls if isinstance(c.func, ast.Attribute) and c.func.attr == "set"]
     joins = [c for c in calls if isinstance(c.func, ast.Attribute) and c.func.attr == "join"]
-    ok = len(sets) == 1 and len(joins) == 1 and sets[0].lineno < joins[0].lineno and not joins[0].args
+    ok = len(sets) == 1 and len(joins) == 1 and comes_before(ex.node, sets[0], joins[0]) and not joins[0].args
     ctx.ob("C20.R3", f"{ex.short}/set-then-join", ok, loc(ex), "done event set, then thread joined" if ok else "__exit__ order changed")
     # ---------------------------------------------------------------- R4
     n = 0
